@@ -4,7 +4,7 @@
    ones the translator regenerates from mouette/operators/*.py on every run. *)
 From Coq Require Import ZArith List Bool Ring Field Reals.
 Require Import MV.C08.Ops MV.C08.Gen MV.C08.Model MV.C08.Proofs_Struct MV.C08.Proofs_Dual MV.C08.Proofs_Graph
-  MV.C08.Proofs_Geom MV.C08.Proofs_Real.
+  MV.C08.Proofs_Geom MV.C08.Proofs_Mass MV.C08.Proofs_Gram MV.C08.Proofs_Real.
 
 (* ---- C08_sym_rowsum: symmetric with zero row sums, for every element list and every weight ---------------------- *)
 (* cotan / uniform vertex Laplacian (laplacian_op.laplacian) *)
@@ -43,18 +43,17 @@ Theorem C08_sym_rowsum_volume :
 Proof. exact vl_gen_sym_rowsum. Qed.
 Print Assumptions C08_sym_rowsum_volume.
 
-(* tetrahedral dual Laplacian (laplacian_op.laplacian_tetrahedra): zero row sums for any neighbour function; symmetric as
-   soon as the neighbour relation connectivity.cell_to_cell is symmetric and stays inside the cell range (what a conforming
-   tetrahedral mesh gives - a C03 fact; the model's cell_nbrs satisfies it on a concrete mesh: Proofs_Real.ex_tets) *)
+(* tetrahedral dual Laplacian (laplacian_op.laplacian_tetrahedra) of a cell list: zero row sums always; symmetric on every
+   cell list that passes the decidable test cell_adjacency_ok (cell_to_cell symmetric with multiplicities and inside the
+   cell range - what a conforming tetrahedral mesh gives), which the batch checker evaluates on every generated mesh *)
 Theorem C08_sym_rowsum_tetra :
   forall (T : Type) (O : ops T),
     ring_theory (o0 O) (o1 O) (oadd O) (omul O) (osub O) (oopp O) eq ->
     oofZ O 0%Z = o0 O ->
     (forall n : nat, oofZ O (Z.of_nat (S n)) = oadd O (o1 O) (oofZ O (Z.of_nat n))) ->
-    forall (nb : Z -> list Z) (nc : Z),
-      rs0 T O (tl_gen O nb nc) /\
-      (nb_symmetric nb nc -> nb_closed nb nc -> symm T O (tl_gen O nb nc)).
-Proof. intros T O H0 H1 H2 nb nc. exact (conj (tl_gen_rowsum T O H0 H1 H2 nb nc) (tl_gen_symm T O H0 H1 H2 nb nc)). Qed.
+    forall (C : list cell),
+      rs0 T O (laplacian_tetrahedra O C) /\ (cell_adjacency_ok C = true -> symm T O (laplacian_tetrahedra O C)).
+Proof. exact laplacian_tetrahedra_sym_rowsum. Qed.
 Print Assumptions C08_sym_rowsum_tetra.
 
 (* ---- C08_stiffness ---------------------------------------------------------------------------------------------- *)
@@ -69,16 +68,17 @@ Theorem C08_stiffness :
 Proof. exact cotan_laplacian_is_stiffness. Qed.
 Print Assumptions C08_stiffness.
 
-(* Re(G^* A G), accumulated face by face from the generated gradient rows, = cotan Laplacian, for every choice of direct
-   orthonormal tangent bases *)
+(* Re(G^* A G) = L literally for the model's matrices: G = gradient_complex (generated rows), A = diag(face areas),
+   products and transposes are the model's sparse mmul / transpose (gag_re = Gre^T A Gre + Gim^T A Gim), for every choice
+   of direct orthonormal tangent bases *)
 Theorem C08_gram :
   forall (T : Type) (O : ops T),
     field_theory (o0 O) (o1 O) (oadd O) (omul O) (osub O) (oopp O) (odiv O) (oinv O) eq ->
     two O <> o0 O ->
     forall (V : list (vec T)) (F : list face) (bases : list (vec T * vec T)),
       Forall2 (fun f b => nondeg T O V f /\ face_basis_ok T O V f b) F bases ->
-      forall i j, entry O (laplacian_cotan O (cot_simple O) V F) i j = entry O (gram O V F bases) i j.
-Proof. exact cotan_laplacian_is_gram. Qed.
+      forall i j, entry O (laplacian_cotan O (cot_simple O) V F) i j = entry O (gag_re O V F bases) i j.
+Proof. exact cotan_laplacian_is_gag. Qed.
 Print Assumptions C08_gram.
 
 (* ---- C08_gradient_affine: G applied to x |-> <a,x> + b0 is (<a,X>, <a,Y>) in each face basis ---------------------- *)
@@ -124,6 +124,17 @@ Theorem C08_mass :
 Proof. exact mass_matrices_diagonal_totals. Qed.
 Print Assumptions C08_mass.
 
+(* area_weight_matrix_edges sums to the total area on every mesh whose stored edge list covers the three half-edges of each
+   face exactly once (decidable test edge_cover_ok, evaluated on every generated mesh by the batch checker) *)
+Theorem C08_mass_edges :
+  forall (T : Type) (O : ops T),
+    field_theory (o0 O) (o1 O) (oadd O) (omul O) (osub O) (oopp O) (odiv O) (oinv O) eq ->
+    three O <> o0 O ->
+    forall (V : list (vec T)) (F : list face) (E : list edge),
+      edge_cover_ok F E = true -> total O (mass_edges O false V F E) = sumT O (areas O V F).
+Proof. exact edge_mass_total. Qed.
+Print Assumptions C08_mass_edges.
+
 (* tetrahedral meshes: vertex volumes sum to 4 x the total volume, cell volumes to the total volume *)
 Theorem C08_mass_volume :
   forall (T : Type) (O : ops T),
@@ -142,7 +153,7 @@ Theorem C08_documented_weights_shapes :
     (forall a : T, mass_edge_share O a = odiv O a (three O)) /\
     (forall a : T, massv_contrib a = a) /\ (forall a : T, massvv_contrib a = a) /\
     (forall l : T, v2f_weight O l = odiv O (o1 O) l) /\
-    (forall n : Z, lap_shape n = (n, n)) /\ (forall n m : Z, gl_shape n m = (n, n)) /\
+    (forall n : Z, lap_shape n = (n, n)) /\ (forall m : Z, lape_shape m = (m, m)) /\ (forall n m : Z, gl_shape n m = (n, n)) /\
     (forall n m : Z, adj_shape n m = (n, n)) /\ (forall n m : Z, v2e_shape n m = (n, m)) /\
     (forall n m : Z, v2f_shape n m = (m, n)).
 Proof. exact documented_weights_shapes. Qed.
@@ -196,7 +207,7 @@ Theorem C08_real_laplacian :
     (forall f, In f F -> nondeg R Rops V f) ->
     forall i j,
       entry Rops (laplacian_cotan Rops (cot_code Rops) V F) i j = entry Rops (stiffness Rops V F) i j /\
-      entry Rops (laplacian_cotan Rops (cot_code Rops) V F) i j = entry Rops (gram Rops V F (conn_bases Rops V F)) i j.
+      entry Rops (laplacian_cotan Rops (cot_code Rops) V F) i j = entry Rops (gag_re Rops V F (conn_bases Rops V F)) i j.
 Proof. exact real_cotan_laplacian. Qed.
 Print Assumptions C08_real_laplacian.
 
@@ -222,3 +233,11 @@ Theorem C08_real_mass_positive :
     Forall (fun x => (0 < x)%R) (vertex_acc Rops n F (areas Rops V F)).
 Proof. exact real_mass_positive. Qed.
 Print Assumptions C08_real_mass_positive.
+
+(* edge masses are positive on every edge that bounds a face *)
+Theorem C08_real_edge_mass_positive :
+  forall (V : list (vec R)) (F : list face) (E : list edge),
+    (forall f, In f F -> nondeg R Rops V f) ->
+    Forall2 (fun e x => has_face F e -> (0 < x)%R) E (edge_acc Rops F (areas Rops V F) E).
+Proof. exact real_edge_mass_positive. Qed.
+Print Assumptions C08_real_edge_mass_positive.
